@@ -389,7 +389,7 @@ MANIFEST_ENTRY = {
             "(<= 12 ops quick, <= 40 thorough; 17 operation kinds incl. condition(args)/condition(kw=...), 5 transform classes + composites, 7 parameter kinds, 7 grids) run on "
             "the real classes and on the model by vm_compute, outputs canonicalised to the parameter/grid version they were computed from "
             "(constant vector fields), error kinds and buffer shapes compared exactly inside Coq, failing histories shrunk.",
-    "note": "Round 2: added C09_reachable_states_wellformed (induction over histories), C09_composite_call_is_fresh_after_any_history, "
+    "note": "Round 3: link_ with Parameter, SVF private ExpFlow and steps=0 are repaired in /repo and modelled (un-sharing of the _parameters dict in link_; Model/ExpShare.v + C09_exp_flag_follows_own_grid by induction over histories, tied by an exact correspondence on real SVF objects: flags and module identity). Round 2: added C09_reachable_states_wellformed (induction over histories), C09_composite_call_is_fresh_after_any_history, "
             "C09_composite_direct_access(_after_clear) (disp/tensor/forward of a composite without __call__ right after clear_buffers on it; "
             "general form for any state whose members are `ready`), C09_linear_tensor_direct, C09_spline_regrid_preserves_world_after_any_history, "
             "C09_regrid_preserves_world(_after_any_history) at full strength. Still partial, by nature of the code: linear transform with callable "
